@@ -590,6 +590,41 @@ pub fn run_c18(tier: Tier, seed: u64) -> i32 {
     for a in results {
         run.acc.merge(a, &[]);
     }
+    // Deep searches: forced mates longer than the printer's mate window (more than 15 plies) are
+    // reported as large cp values, and iterations beyond 30 are only reached on cheap roots. Both
+    // need many iterations, so these roots run with an iteration limit of 99 and a budget of
+    // clock queries instead of a small depth limit.
+    let mut deep: Vec<Root> = Vec::new();
+    for fen in ["4b1bk/3p1p1p/2pPpP1P/2p1p3/8/8/P1P1P3/K7 b - -", "8/8/8/3k4/8/3K4/3Q4/8 w - -", "8/8/8/3k4/8/3K4/3R4/8 w - -", "4k3/8/8/8/8/8/3Q4/4K3 b - -", "8/8/8/8/8/k7/p7/K7 b - -", "8/8/4k3/8/8/4K3/4P3/8 w - -"] {
+        let p = Pos::parse_fen(fen).unwrap();
+        if let Ok(r) = make_root(History { start: p.clone(), moves: vec![], end: p }, &h) {
+            deep.push(r);
+        }
+    }
+    deep.extend(deep_iteration_roots(seed ^ 0x18, tier.pick(10, 100), &h));
+    let budget = tier.pick(1_200_000u64, 6_000_000);
+    let results = par::par_map(deep.len(), |j| {
+        let root = &deep[j];
+        let mut acc = Acc::new();
+        let r = run_search(&root.board, &root.table, Some(budget), 99);
+        let f = check_run("C18", root, 99, Some(budget), &r, &mut acc);
+        acc.evaluations += f.infos.len() as u64;
+        acc.count("deep_search_runs", 1);
+        acc.max("deep_max_iteration_reached", r.report.depth_started as u64);
+        let big = f.infos.iter().filter(|i| matches!(i.score, Score::Cp(x) if x.abs() > 90_000)).count();
+        if big > 0 {
+            acc.feature("cp_line_for_a_mate_beyond_the_mate_window");
+            acc.distinct.insert(hash64(&format!("deepc18|{}", root.hist.command())));
+            acc.count("cp_lines_above_90000", big as u64);
+        }
+        if j == 0 {
+            acc.sample(json!({"deep_root": root.hist.end.to_fen(), "iterations": r.report.depth_started, "lines": f.infos.len(), "largest_abs_score": f.infos.iter().map(|i| score_key(&i.score).abs()).max()}));
+        }
+        acc
+    });
+    for a in results {
+        run.acc.merge(a, &["deep_max_iteration_reached"]);
+    }
     super::timed::c18_blackbox(&mut run);
     run.floor_distinct = 200;
     run.finish()
